@@ -49,7 +49,13 @@ func (d DPT_8002) String() string {
 type DPT_8003 float32
 
 func (d DPT_8003) Pack() []byte {
-	return packV16(int16(d * 100))
+	if d <= -327.68 {
+		return packV16(-32768)
+	} else if d >= 327.67 {
+		return packV16(32767)
+	} else {
+		return packV16(int16(d * 100))
+	}
 }
 
 func (d *DPT_8003) Unpack(data []byte) error {
@@ -76,7 +82,13 @@ func (d DPT_8003) String() string {
 type DPT_8004 float32
 
 func (d DPT_8004) Pack() []byte {
-	return packV16(int16(d * 10))
+	if d <= -3276.8 {
+		return packV16(-32768)
+	} else if d >= 3276.7 {
+		return packV16(32767)
+	} else {
+		return packV16(int16(d * 10))
+	}
 }
 
 func (d *DPT_8004) Unpack(data []byte) error {
@@ -160,7 +172,13 @@ func (d DPT_8007) String() string {
 type DPT_8010 float32
 
 func (d DPT_8010) Pack() []byte {
-	return packV16(int16(d * 100))
+	if d <= -327.68 {
+		return packV16(-32768)
+	} else if d >= 327.67 {
+		return packV16(32767)
+	} else {
+		return packV16(int16(d * 100))
+	}
 }
 
 func (d *DPT_8010) Unpack(data []byte) error {
